@@ -26,7 +26,7 @@ theorem castB_eq {N q : Nat} (h : q < M N / 2) : castB N q = (q : Int) := by
 
 /-- quotient step, extended variant -/
 theorem fallbackStep_ext {N : Nat} {n p : Nat} {s s' : St} (hN : 0 < N)
-    (h : fallbackStep N true s = some s') (hy0 : s.y ≠ 0)
+    (h : fallbackStep N K true s = some s') (hy0 : s.y ≠ 0)
     (hx : (s.x : Int) = s.A * n + s.B * p) (hy : (s.y : Int) = s.C * n + s.D * p) :
     Nat.gcd s'.x s'.y = Nat.gcd s.x s.y ∧ (s'.x : Int) = s'.A * n + s'.B * p ∧
     (s'.y = 0 ∨ (s'.y : Int) = s'.C * n + s'.D * p) := by
@@ -105,7 +105,7 @@ theorem fallbackStep_ext {N : Nat} {n p : Nat} {s s' : St} (hN : 0 < N)
         · simp at h
 
 /-- quotient step, plain variant -/
-theorem fallbackStep_noext {N : Nat} {s s' : St} (h : fallbackStep N false s = some s') :
+theorem fallbackStep_noext {N : Nat} {s s' : St} (h : fallbackStep N K false s = some s') :
     Nat.gcd s'.x s'.y = Nat.gcd s.x s.y := by
   unfold fallbackStep at h
   simp at h; subst h
@@ -120,7 +120,7 @@ theorem negIf_some {N : Nat} {neg : Bool} {z r : Int}
 
 /-- 64-bit lattice reduction step -/
 theorem lehmerStep_spec {N : Nat} {ext : Bool} {n p : Nat} {s s' : St} {bts xtop ytop : Nat}
-    (h : lehmerStep N ext s bts xtop ytop = some s') (hxt : xtop < W) (hyt : ytop < W)
+    (h : lehmerStep N K ext s bts xtop ytop = some s') (hxt : xtop < W) (hyt : ytop < W)
     (hxs : s.x < W ^ ((bts + 63) / 64)) (hys : s.y < W ^ ((bts + 63) / 64))
     (hx : ext = true → (s.x : Int) = s.A * n + s.B * p)
     (hy : ext = true → (s.y : Int) = s.C * n + s.D * p) :
@@ -182,7 +182,7 @@ theorem lt_of_bits_lt_64 {x : Nat} (h : bits x < 64) : x < 9223372036854775808 :
 
 /-- an iteration that returns, returns the gcd with valid cofactors -/
 theorem gcdStep_ret {N : Nat} {ext : Bool} {n p : Nat} {s0 : St} {d : Nat} {u v : Int}
-    (h : gcdStep N ext s0 = some (.ret d u v)) (hinv : GInv ext n p s0) :
+    (h : gcdStep N K ext s0 = some (.ret d u v)) (hinv : GInv ext n p s0) :
     d = Nat.gcd n p ∧ (ext = true → u * n + v * p = d) := by
   have hs := GInv_swap hinv
   unfold gcdStep at h
@@ -256,7 +256,7 @@ theorem gcdStep_ret {N : Nat} {ext : Bool} {n p : Nat} {s0 : St} {d : Nat} {u v 
 
 /-- an iteration that continues keeps the invariant -/
 theorem gcdStep_next {N : Nat} {ext : Bool} {n p : Nat} {s0 s' : St} (hN : 0 < N)
-    (h : gcdStep N ext s0 = some (.next s')) (hinv : GInv ext n p s0) : GInv ext n p s' := by
+    (h : gcdStep N K ext s0 = some (.next s')) (hinv : GInv ext n p s0) : GInv ext n p s' := by
   have hs := GInv_swap hinv
   unfold gcdStep at h
   simp only at h
@@ -306,7 +306,7 @@ theorem gcdStep_next {N : Nat} {ext : Bool} {n p : Nat} {s0 s' : St} (hN : 0 < N
 /-- partial correctness of the main loop: whenever it returns, the result is the gcd with valid
 Bezout cofactors (extended variant) -/
 theorem gcdLoop_spec {N : Nat} {ext : Bool} {n p : Nat} (hN : 0 < N) :
-    ∀ (f : Nat) (s : St) (d : Nat) (u v : Int), gcdLoop N ext f s = some (d, u, v) →
+    ∀ (f : Nat) (s : St) (d : Nat) (u v : Int), gcdLoop N K ext f s = some (d, u, v) →
     GInv ext n p s → d = Nat.gcd n p ∧ (ext = true → u * n + v * p = d) := by
   intro f
   induction f with
